@@ -18,6 +18,19 @@ package contractcourt
 // transactions, sweep requests) and the environment's events (blocks, close
 // events, spends) are recorded as lines of their own.  There is no judgement
 // here: spec/Arbitrator/ArbitratorTrace.tla is the judge.
+//
+// Channel type (follow-up b13): a scenario name is a close scenario with an
+// optional prefix a (anchor / zero-fee HTLC) or t (simple taproot).  The
+// fixture channel in the real channel db has that type (the arbitrator reads
+// it through FetchHistoricalChannel), the resolutions are what lnwallet would
+// hand over for it (SignDetails; for taproot real script trees, P2TR outputs
+// and control blocks).  The environment is faithful about outpoints: spends go
+// only to registrations for that outpoint, for zero-fee types the second-level
+// transaction that confirms is a re-signed, aggregated one (other txid, our
+// pair at index 1), and a sweep only ever confirms for a signable request of
+// exactly that outpoint.  Every input handed to the sweeper (Sweep: outpoint
+// role, control block present, taproot witness type) and every spend
+// registration (Watch: outpoint role) is recorded.
 
 import (
 	"bytes"
@@ -73,6 +86,7 @@ type c13Line struct {
 	H    string   `json:"h"`    // htlc role: o | od | id | i | ""
 	K    string   `json:"k"`    // argument (settle/fail, spend kind, crash variant, outpoint role ...)
 	Cb   int      `json:"cb"`   // Sweep: the input's sign descriptor carries a taproot control block
+	Tw   int      `json:"tw"`   // Sweep: the input's witness type is one of the taproot types
 	Wt   string   `json:"wt"`   // Sweep: witness type of the input (for humans)
 	St   string   `json:"st"`   // durable log state
 	Un   []c13Res `json:"un"`   // durable unresolved-contracts bucket
@@ -852,6 +866,7 @@ func (s *c13Sweeper) SweepInput(inp input.Input, _ sweep.Params) (chan sweep.Res
 		s.w.emitLocked("Sweep", "", "", role, "")
 		l := &s.w.lines[len(s.w.lines)-1]
 		l.Cb, l.Wt = cb, fmt.Sprintf("%v", inp.WitnessType())
+		l.Tw = c13b(strings.HasPrefix(l.Wt, "Taproot"))
 	}
 	s.w.mu.Unlock()
 	if role == "anchor" {
